@@ -15,7 +15,7 @@ RULE = (
     "from_string, from_integer, one_based (+aliases), from_iterable_validated and MeshPatt.unrank/rank/of_length decide "
     "every call: listings against itertools.permutations order, rank = index in the (length, lex) listing, "
     "standardisation = stable ranking of any comparable sequence, notations by round trip, mesh rank = sum 2^(x(k+1)+y). "
-    "Workload: exhaustive lengths, every rank/count, huge random ranks, heterogeneous standardisation inputs, a "
+    "Workload: exhaustive lengths, every rank/count, huge random ranks, heterogeneous standardisation inputs, interleaved consumption of several live generators, a "
     ">10000-key history through the memoised standardisation (eviction) with results compared before/after, and "
     "immutability of shared memoised results. Non-trivial = distinct permutations ranked/unranked + distinct "
     "standardisation inputs with repeated values."
@@ -24,7 +24,7 @@ ASSUMPTIONS = ["from_string/str round trip only for length <= 10; from_integer o
 REQUIRED = ["calls.Perm.of_length", "calls.Perm.up_to_length", "calls.Perm.first", "calls.Perm.unrank", "calls.Perm.rank",
             "calls.Perm.to_standard", "calls.Perm.from_string", "calls.Perm.from_integer", "calls.Perm.one_based",
             "calls.Perm.from_iterable_validated", "calls.MeshPatt.unrank", "calls.MeshPatt.rank", "calls.MeshPatt.of_length",
-            "lru.evictions_forced", "std.with_ties", "validated.rejected", "unrank.domain_rejected"]
+            "lru.evictions_forced", "interleaved.rounds", "std.with_ties", "validated.rejected", "unrank.domain_rejected"]
 MIN_NONTRIVIAL = 1000
 CTX = None
 MON = None
@@ -383,7 +383,45 @@ def chk_lru(ctx, seed, nkeys):
             report("lru", [seed, nkeys], f"to_standard({seq}) wrong after equal-key lookups")
 
 
-CHECKS = {"listing": chk_listing, "rank": chk_rank, "unrank": chk_unrank, "notation": chk_notation, "std": chk_std,
+def chk_interleaved(ctx, seed, rounds):
+    """History: several generator objects alive at once and advanced in a random interleaving (nested loops, zip, ...);
+    every listing is judged by the generator monitors at exhaustion / abandonment, then fresh listings are taken."""
+    rng = random.Random(seed)
+    # two (three) live iterators crossing each length for the first time in this process, in lock step and staggered
+    for n in (3, 10, 40, 200, 900, 6000):
+        list(zip(Perm.first(n), Perm.first(n)))
+        a, b = iter(Perm.first(n)), iter(Perm.first(n + 7))
+        next(a, None)
+        for _x, _y in zip(a, b):
+            pass
+        list(b)
+    for n in range(7):
+        list(zip(Perm.of_length(n), Perm.of_length(n), Perm.up_to_length(n)))
+    for _ in range(rounds):
+        live = []
+        for _ in range(rng.randint(2, 4)):
+            kind = rng.choice(["first", "first", "of_length", "up_to_length"])
+            arg = rng.choice([5, 12, 30, 40, 130, 900]) if kind == "first" else rng.randint(0, 5)
+            live.append(iter(getattr(Perm, kind)(arg)))
+        while live:
+            it = rng.choice(live)
+            for _ in range(rng.randint(1, 7)):
+                if next(it, None) is None:
+                    live.remove(it)
+                    break
+            if live and rng.random() < 0.03:
+                live.pop(rng.randrange(len(live))).close()
+        ctx.count("interleaved.rounds")
+        list(Perm.first(rng.choice([5, 41, 200])))
+        list(Perm.of_length(rng.randint(0, 5)))
+        list(zip(Perm.first(40), Perm.first(40)))
+        a = [tuple(p) for p in Perm.first(35)]
+        ctx.ev()
+        if [Perm(t).rank() for t in a] != list(range(35)):
+            report("interleaved", [seed, rounds], "Perm.first(35) no longer lists ranks 0..34 after interleaved iteration")
+
+
+CHECKS = {"interleaved": chk_interleaved, "listing": chk_listing, "rank": chk_rank, "unrank": chk_unrank, "notation": chk_notation, "std": chk_std,
           "validated": chk_validated, "meshrank": chk_meshrank, "meshlist": chk_meshlist, "lru": chk_lru}
 
 
@@ -396,6 +434,7 @@ def plan(tier, seed):
     specs.append({"name": "mesh", "kind": "mesh", "rand": 2000 if tier == "quick" else 100000})
     specs += [{"name": f"rand-{i}", "kind": "rand", "count": (3000 if tier == "quick" else 60000) // 8} for i in range(8)]
     specs.append({"name": "lru", "kind": "lru", "keys": 12000 if tier == "quick" else 40000})
+    specs.append({"name": "interleaved", "kind": "interleaved", "rounds": 60 if tier == "quick" else 1500})
     return specs
 
 
@@ -467,6 +506,9 @@ def run(ctx, spec):
                     vals = vals[:-1] + [None] if rng.random() < 0.5 else vals[:-1] + [1.5]
                 chk_validated(ctx, vals)
         ctx.sample({"kind": "random rank/std/validated inputs", "last": enc_seq(vals) if "vals" in dir() else None})
+    elif kind == "interleaved":
+        chk_interleaved(ctx, ctx.seed, spec["rounds"])
+        ctx.sample({"interleaved_generator_rounds": spec["rounds"]})
     elif kind == "lru":
         chk_lru(ctx, ctx.seed, spec["keys"])
         chk_lru(ctx, ctx.seed + 1, spec["keys"])
